@@ -9,6 +9,9 @@ Inductive c14case :=
 | CStatus (id : Z) (fx : bool) (r : rep) (loopMS : Z) (cfg : tcfg) (codes : list sscode) (repID : string)
           (audio : option (Z * Z)) (mode : addressing) (segID now base : Z)
           (obs : Z) (opanic : string)
+(** a media segment of a generated subtitle track with statuscode_ configured, implementation
+    without the repair for these tracks (with it: CStatus with audio = Some (1000, 1)) *)
+| CSubs (id : Z) (cfg : tcfg) (codes : list sscode) (now base obs : Z)
 (** calcStatusCode on a synthetic one-representation asset (L2, hook): obs = code, -1 = error *)
 | CCalc (id : Z) (fx : bool) (r : rep) (loopMS : Z) (cfg : tcfg) (codes : list sscode) (repID : string)
         (mode : addressing) (segID now : Z) (obs : Z) (opanic : string)
@@ -28,6 +31,7 @@ Definition c_id (c : c14case) : Z :=
   match c with
   | CStatus id _ _ _ _ _ _ _ _ _ _ _ _ _ => id
   | CCalc id _ _ _ _ _ _ _ _ _ _ _ => id
+  | CSubs id _ _ _ _ _ => id
   | CTraffic id _ _ _ _ _ _ _ _ => id
   | CLoss id _ _ _ _ _ _ => id
   | CBase id _ _ _ => id
@@ -77,6 +81,8 @@ Definition case_ok (c : c14case) : bool :=
   | CCalc _ fx r loopMS cfg codes repID mode segID now obs opanic =>
     let '(s, p) := calcView fx r loopMS cfg codes repID mode segID now in
     (s =? obs) && String.eqb p opanic
+  | CSubs _ cfg codes now base obs =>
+    let '(s, p) := ansView (subsAnswerUnrepaired cfg codes now base) in (s =? obs) && String.eqb p EmptyString
   | CTraffic _ pattern segPart now bp bs obs odelay opanic =>
     let '(s, d, p) := trafficView pattern segPart now bp bs in
     (s =? obs) && (d =? odelay) && String.eqb p opanic
@@ -106,6 +112,8 @@ Definition model_view (c : c14case) : mview :=
     let '(s, p) := ansView (segAnswer fx r loopMS cfg codes repID audio mode segID now base) in VAns s p
   | CCalc _ fx r loopMS cfg codes repID mode segID now _ _ =>
     let '(s, p) := calcView fx r loopMS cfg codes repID mode segID now in VAns s p
+  | CSubs _ cfg codes now base _ =>
+    let '(s, p) := ansView (subsAnswerUnrepaired cfg codes now base) in VAns s p
   | CTraffic _ pattern segPart now bp bs _ _ _ =>
     let '(s, d, p) := trafficView pattern segPart now bp bs in VTraffic s d p
   | CLoss _ pattern _ _ _ secs _ => VLoss (lossView pattern secs)
